@@ -1,7 +1,6 @@
 ################################################################################
 # © Copyright 2022 Zapata Computing Inc.
 ################################################################################
-import copy
 import json
 import math
 import sys
@@ -100,9 +99,9 @@ class MeasurementOutcomeDistribution:
         if len(active_qubits) != len(set(active_qubits)):
             raise ValueError("There exist duplicate indices in the active qubit list")
 
-        for key in copy.deepcopy(list(self.distribution_dict.keys())):
+        for key in self.distribution_dict:
             new_key = "".join(str(key[i]) for i in active_qubits)
-            new_counts[new_key] = self.distribution_dict.pop(key) + new_counts.get(
+            new_counts[new_key] = self.distribution_dict[key] + new_counts.get(
                 new_key, 0
             )
         normalize = is_normalized(self.distribution_dict)
